@@ -436,13 +436,15 @@ func (g *GoFakeS3) deleteBucket(bucket string, w http.ResponseWriter, r *http.Re
 		}
 	}
 
-	if err := g.storage.DeleteBucket(bucket); err != nil {
-		return err
-	}
 	if u, ok := g.uploader.(*uploader); ok {
-		// The built-in uploader keeps uploads by bucket name. (A backend that
-		// implements MultipartBackend itself has just seen the DeleteBucket.)
-		u.DeleteBucket(bucket)
+		// The built-in uploader keeps uploads by bucket name and has to
+		// forget them together with the bucket. (A backend that implements
+		// MultipartBackend itself simply sees the DeleteBucket.)
+		if err := u.DeleteBucket(bucket, func() error { return g.storage.DeleteBucket(bucket) }); err != nil {
+			return err
+		}
+	} else if err := g.storage.DeleteBucket(bucket); err != nil {
+		return err
 	}
 
 	w.WriteHeader(http.StatusNoContent)
